@@ -108,6 +108,24 @@ def gen_source(rnd, d, idx, used_keys, case_id=0):
             "_omit_defaults": rnd.random() < 0.5}
 
 
+def directed_specs(d):
+    """Specs that are part of every run, whatever the seed: each block / source mode pairing with a two-column, two-row source,
+    through both doors, the source mode written out and left to its default."""
+    (d / "dir_src.csv").write_text("B,c\n1,10\n2,20\n")
+    cols = {"B": [1, 2], "c": [10, 20]}
+    out = []
+    for door in ("yaml", "dataclass"):
+        for bmode, smode, omit, ctx in (("combinatorial", "by_position", True, {"a": [7, 8]}), ("combinatorial", "by_position", False, {"a": [7, 8]}),
+                                        ("combinatorial", "combinatorial", False, {"a": [7, 8]}), ("by_position", "combinatorial", False, {"a": [1, 2, 3, 4]}),
+                                        ("by_position", "by_position", True, {"a": [7, 8]}), ("by_position", "by_position", True, {}),
+                                        ("combinatorial", "by_position", True, {})):
+            src = {"format": "csv", "path": "dir_src.csv", "select": None, "rename": {}, "mode": smode, "_cols": {k: list(v) for k, v in cols.items()},
+                   "_omit_defaults": omit}
+            out.append({"blocks": [{"mode": bmode, "context": {k: list(v) for k, v in ctx.items()}, "source": src}], "combine": "combinatorial",
+                        "max_runs": 1000, "_door": door})
+    return out
+
+
 def gen_spec(rnd, d, case_id=0):
     nblocks = rnd.choice([0, 1, 1, 2, 2, 3, 4])
     blocks = []
@@ -423,8 +441,9 @@ def run(tier: str) -> int:
              "with_source": 0, "formats": {}, "runs_compared": 0, "nontrivial_ok": 0, "promptness": {}}
     reqs, cases = [], []
     with rt.tempdir() as d:
+        fixed = directed_specs(d)
         for i in range(n_cases):
-            spec = gen_spec(rnd, d, i)
+            spec = fixed[i] if i < len(fixed) else gen_spec(rnd, d, i)
             # choose max_runs around the planned total: ask the model first with a huge cap
             cases.append(spec)
             reqs.append({"m": "c08.expand", "id": i, "spec": dict(model_spec(spec), max_runs=10 ** 9)})
@@ -450,7 +469,7 @@ def run(tier: str) -> int:
         disagreements = []
         samples = []
         for i, spec in enumerate(cases):
-            door = "yaml" if rnd.random() < 0.3 else "dataclass"
+            door = spec.get("_door") or ("yaml" if rnd.random() < 0.45 else "dataclass")
             stats["cases"] += 1
             stats["doors"][door] += 1
             stats["blocks"][len(spec["blocks"])] = stats["blocks"].get(len(spec["blocks"]), 0) + 1
